@@ -87,6 +87,21 @@ type Pred struct {
 	Pkg    string
 }
 
+// FieldInv: an invariant of a struct field, assumed whenever the field is loaded
+// (trusted facts about fields of dependency types, or representation invariants).
+type FieldInv struct {
+	Type  string // pkgname.Type
+	Field string
+	Expr  ast.Expr // over the variable v
+	Src   string
+	File  string
+}
+
+type LitPred struct {
+	Pred string
+	Re   *regexp.Regexp
+}
+
 type Axiom struct {
 	Name string
 	Expr ast.Expr
@@ -136,6 +151,9 @@ type Specs struct {
 	Contracts    map[string]*Contract // key: pkgpath + "|" + Key (repo contracts) or Key (spec files)
 	SpecFns      map[string]*SpecFn
 	Preds        map[string]*Pred
+	FieldInvs    map[string]*FieldInv
+	Relies       []string
+	LitPreds     []LitPred
 	Axioms       []*Axiom
 	Lemmas       []*Lemma
 	GhostFields  map[string]*GhostField // "bytes.Buffer.content"
@@ -145,7 +163,7 @@ type Specs struct {
 }
 
 func newSpecs() *Specs {
-	return &Specs{Contracts: map[string]*Contract{}, SpecFns: map[string]*SpecFn{}, GhostFields: map[string]*GhostField{}, Preds: map[string]*Pred{}}
+	return &Specs{Contracts: map[string]*Contract{}, SpecFns: map[string]*SpecFn{}, GhostFields: map[string]*GhostField{}, Preds: map[string]*Pred{}, FieldInvs: map[string]*FieldInv{}}
 }
 
 var labelRe = regexp.MustCompile(`^\[([A-Za-z0-9_:,.\-]+)\]\s*`)
@@ -328,7 +346,7 @@ func splitNames(s string) []string {
 var keywords = map[string]bool{"func": true, "serves": true, "requires": true, "ensures": true, "modifies": true,
 	"ghost": true, "loop": true, "panics_if": true, "trusted": true, "pure": true, "spec": true, "axiom": true,
 	"ghostfield": true, "opt": true, "assert_at": true, "rely": true, "lemma": true, "const": true, "struct": true,
-	"fresh": true, "nobody": true, "end": true, "vars": true, "pred": true}
+	"fresh": true, "nobody": true, "end": true, "vars": true, "pred": true, "fieldinv": true, "assume": true, "litpred": true}
 
 // parseSpecFile reads all //@ directives of a file.
 func (sp *Specs) parseFile(path, pkgPath string) error {
@@ -569,6 +587,31 @@ func (sp *Specs) parseFile(path, pkgPath string) error {
 				return errf("duplicate spec fn %s", sf.Name)
 			}
 			sp.SpecFns[sf.Name] = sf
+			cur = nil
+		case "litpred":
+			// litpred PRED regexp : PRED(lit) holds for every string literal whose text matches
+			if len(f) < 3 {
+				return errf("litpred PRED regexp")
+			}
+			re, err := regexp.Compile(strings.TrimSpace(strings.TrimPrefix(rest, f[1])))
+			if err != nil {
+				return errf("litpred: %v", err)
+			}
+			sp.LitPreds = append(sp.LitPreds, LitPred{Pred: f[1], Re: re})
+		case "assume":
+			// assume <free text>: a stated, unchecked assumption (copied into the evidence)
+			sp.Relies = append(sp.Relies, rest)
+		case "fieldinv":
+			// fieldinv pkg.Type Field expr-over-v
+			if len(f) < 4 {
+				return errf("fieldinv TYPE FIELD expr")
+			}
+			r2 := strings.TrimSpace(strings.TrimPrefix(strings.TrimSpace(strings.TrimPrefix(rest, f[1])), f[2]))
+			e, err := parseExpr(r2)
+			if err != nil {
+				return errf("fieldinv: %v", err)
+			}
+			sp.FieldInvs[f[1]+"."+f[2]] = &FieldInv{Type: f[1], Field: f[2], Expr: e, Src: rest, File: path}
 			cur = nil
 		case "pred":
 			// pred NAME(a, b) := body   (macro over the current heap)
